@@ -96,8 +96,15 @@ func Denitmo(g *GlobalVarsMain) {
 	thetasat2 := (g.PORGES[3] + g.PORGES[4] + g.PORGES[5]) / 3
 	thetasat3 := (g.PORGES[6] + g.PORGES[7] + g.PORGES[8]) / 3
 	thetarel1 := thetaOb30 / thetasat1
-	thetarel2 := thetaOb60 / thetasat2
-	thetarel3 := thetaOb90 / thetasat3
+	// a block below the bottom of a thin profile (fewer than nine layers) has no pore volume:
+	// it holds no water and takes no part, its relative water content is 0 and not 0/0
+	var thetarel2, thetarel3 float64
+	if thetasat2 > 0 {
+		thetarel2 = thetaOb60 / thetasat2
+	}
+	if thetasat3 > 0 {
+		thetarel3 = thetaOb90 / thetasat3
+	}
 	nitratOb30 := g.C1[0] + g.C1[1] + g.C1[2]
 	nitratOb60 := g.C1[3] + g.C1[4] + g.C1[5]
 	nitratOb90 := g.C1[6] + g.C1[7] + g.C1[8]
